@@ -20,6 +20,21 @@ def arm_sources(F, f):
             for (b2, kind, a2, fld, line, pl2) in f.field_accesses():
                 if b2 in region and a2.endswith(PC_SUFFIX) and fld in SOURCES:
                     flds.add(fld)
+            # lookups made through helpers of the provenance module called from the arm (wrapper summary, bound 2)
+            seen = set()
+            todo = [(c.resolved, 1) for c in f.normal_calls() if c.bb in region and (c.resolved or "").startswith("provenance::") and c.resolved != f.name]
+            while todo:
+                (n, d) = todo.pop()
+                if n in seen or n not in F.bodies or d > 2:
+                    continue
+                seen.add(n)
+                g = F.fn(n)
+                for (b2, kind, a2, fld, line, pl2) in g.field_accesses():
+                    if a2.endswith(PC_SUFFIX) and fld in SOURCES:
+                        flds.add(fld)
+                for c in g.normal_calls():
+                    if (c.resolved or "").startswith("provenance::") and c.resolved != f.name:
+                        todo.append((c.resolved, d + 1))
             per[v] = flds
         out.append((bb, per))
     return out
